@@ -131,10 +131,14 @@ def sortKeys {α : Type} (rank : α → Nat) : List α → List α
   | [] => []
   | x :: xs => insertBy rank x (sortKeys rank xs)
 
-/-! ### sort.Float64s (NaN first, then ascending); stable insertion sort, which is what Go's
-pdqsort does for at most 12 elements -/
+/-! ### the sort of `benchmath.NewSample` (commit 803247b): `slices.SortFunc` with `cmp.Compare`
+— NaNs first, then ascending — and, for values that compare equal (−0/+0, two NaNs), the one
+with the sign bit first. Stable insertion sort, which is what Go's pdqsort does for at most 12
+elements; for longer slices the result is the same whenever the order separates the elements. -/
 
-def f64Less (a b : F64.Bits) : Bool := F64.lt a b || (F64.isNaN a && !F64.isNaN b)
+def f64Less (a b : F64.Bits) : Bool :=
+  F64.lt a b || (F64.isNaN a && !F64.isNaN b) ||
+  (((F64.isNaN a && F64.isNaN b) || F64.eq a b) && F64.signBit a && !F64.signBit b)
 
 /-- insert `x` before the first element that is not smaller than it -/
 def insertF (x : F64.Bits) : List F64.Bits → List F64.Bits
